@@ -161,20 +161,19 @@ func nodeCheck(prop string, props string, rule string, withMirror bool) func(c *
 			// C02, C08, C12: first the state machine alone, with the explorer as its mirror (smbare.go).
 			exploreBare(c, props, maxDev, depth+1, st, each)
 		}
-		exploreNode(c, props, maxDev, depth, st, each)
 		if withMirror {
+			// The bare mirror first (cheap executions: the BFS from the seed states takes seconds), the engine after it.
 			mdev, mdepth := 1, 2
 			if !c.Quick() {
 				mdev, mdepth = 2, 3
 			}
+			exploreBFS(c, props, []int{0, 7, 16, 22}, mdepth, alphabet("core"), st, each)
 			exploreDeviations(c, props, mdev, st, each)
-			if !c.Quick() || prop == "C09" {
-				exploreBFS(c, props, []int{0, 7, 16, 22}, mdepth, alphabet("core"), st, each)
-			}
 			if prop == "C09" {
 				exploreRaces(c, props)
 			}
 		}
+		exploreNode(c, props, maxDev, depth, st, each)
 		c.Assume("testing/synctest quiescence; one environment event at a time")
 		c.Assume("4 validators, one Byzantine (<1/3 power); honest validators precommit only the honest block or nil")
 		c.Assume("the strategy only answers with a block it was offered, nil, or not-ready")
